@@ -240,6 +240,39 @@ MSGS = ["", "", "boom", "name 'plarp' is not defined", "a: b", ": lead", "x\ny",
         "Exception x ignored\nmore", "unsupported operand type(s) for +: 'int' and 'str'", "~^", "t\n~~^",
         "x\nExceptions were ignored", "Exception", "a\nExceptionally ignored", "b\nException  ignored x", "c\nexception y ignored",
         "d\nException ignored "]
+# every literal the scanner keys on; messages are also built around each of them (start / middle / end of the
+# exception line and of the lines of multi-line messages)
+KEYWORDS = ["Exception ", "ignored", "Exception x ignored", 'File "', ", line ", " in ", ", in ", "Traceback (most recent call last):",
+            "[Previous line repeated", "[Previous line repeated 2 more times]", ": ", "^", "~", '", line 3, in f',
+            'File "a.py", line 3, in f', "    ", "\t"]
+FILLER = ["", "x", "cb()", "callback <Handle cb()>", "a b", "RuntimeError", "in", "7"]
+
+
+def kw_line(rng):
+    k = rng.choice(KEYWORDS)
+    pos = rng.choice(["start", "middle", "end", "alone", "twice"])
+    f1, f2 = rng.choice(FILLER), rng.choice(FILLER)
+    if pos == "start":
+        return k + f1
+    if pos == "end":
+        return f1 + k
+    if pos == "alone":
+        return k
+    if pos == "twice":
+        return f1 + k + f2 + rng.choice(KEYWORDS)
+    return f1 + " " + k + f2
+
+
+def kw_msg(rng):
+    n = rng.choice([1, 1, 2, 3])
+    where = rng.randrange(n)
+    lines = [kw_line(rng) if i == where or rng.random() < 0.3 else rng.choice(["plain", "", "l%d" % i, "more text"]) for i in range(n)]
+    if rng.random() < 0.2:
+        lines[-1] = rng.choice(["Exception in callback <Handle cb()> ignored", "x Exception y ignored", "an Exception was ignored",
+                                "Exception ignored", "Exception  ignored", "Exception ignored in: <function f>"])
+    return "\n".join(lines)
+
+
 MARKS = ["    ^^^^", "    ~~~^~~", "      ^", "^", "", "   ", "    ~~~~~~~~^^^^^^"]
 ALPHA = "abcxyz_ .:/\\\"',()<>-~^019\u00e9\u4e2d\t"
 
@@ -272,7 +305,8 @@ def gen_rt(rng, tier):
         frames.append({"path": p, "lineno": _lineno(rng), "func": fn, "src": src,
                        "mark": rng.choice(MARKS) if (src and rng.random() < 0.35) else None})
     typ = rng.choice(TYPES) if rng.random() < 0.9 else (_rand_str(rng, 1, 8).replace(" ", "").replace("\t", "") or "E")
-    msg = rng.choice(MSGS) if rng.random() < 0.85 else _rand_str(rng, 0, 20)
+    r0 = rng.random()
+    msg = rng.choice(MSGS) if r0 < 0.65 else (kw_msg(rng) if r0 < 0.88 else _rand_str(rng, 0, 20))
     case = {"kind": "rt", "frames": frames, "type": typ, "msg": msg, "renderer": "std", "bad": None,
             "bytes": rng.random() < 0.2}
     r = rng.random()
@@ -525,7 +559,8 @@ STMTS = ["return {nx}(n)", "x = {nx}(n); return x", "return ({nx}(\n        n))"
          "try:\n        return {nx}(n)\n    finally:\n        pass", "for _ in [0]:\n        return {nx}(n)",
          "return {nx}(n)   ", "return {nx}(n)  # \u00fcn\u00ef \u2713", "return   {nx}( n )", "r = [{nx}(n) for _ in [0]]; return r[0]",
          "with _Ctx():\n        return {nx}(n)"]
-EXC_MSGS = [None, "", "boom", "a: b", "l1\nl2", "\u00fcn\u00ef \u2713", "  spaced  ", "x\n", "m\n  File \"a\", line 1, in b", 42, ("a", "b")]
+EXC_MSGS = [None, "", "Exception in callback <Handle cb()> ignored", "x\nan Exception was ignored", "see File \"a.py\", line 3, in f",
+            "t: [Previous line repeated 2 more times]", "boom", "a: b", "l1\nl2", "\u00fcn\u00ef \u2713", "  spaced  ", "x\n", "m\n  File \"a\", line 1, in b", 42, ("a", "b")]
 
 
 def _registered(rng, kind, i, text):
